@@ -107,9 +107,9 @@ PROPS = {
                              'Lean: Model/Api.lean + apiStep_local (other objects unaffected); the judge applies it to histories with injected failures'],
                 technique='exhaustive single-fault enumeration over allocation indices, judged by the Lean API model'),
     'C18': dict(level='exploration', theorem_modules=['C01'], min_theorems=4, tags=['C18'], crash_counts=True, runner=None, flavours=['c'],
-                rule='left-recursive list, E/T/F arithmetic and the 200-rule ANSI C grammar of test41.c on the tokens of test/test.i (the repo lexer ansic.l), input lengths 1k..16k/32k (thorough: ..512k) doubling, lookahead 0,1,2: bytes requested from the allocator during yaep_parse, hash searches, unique situations / set cores / distance vectors / sets / triples must grow by at most a calibrated factor per doubling (bytes 2.6, searches 3.5, ...), never more unique sets than tokens, goto-cache hits do not shrink; non-trivial = a (family, lookahead, n -> 2n) pair with both measurements',
+                rule='left-recursive list, E/T/F arithmetic and the 200-rule ANSI C grammar of test41.c on the tokens of test/test.i (the repo lexer ansic.l), input lengths 1k..16k/32k (thorough: ..512k) doubling, lookahead 0,1,2: bytes requested from the allocator during yaep_parse, hash searches, unique situations / set cores / distance vectors / sets / triples must grow by at most a calibrated factor per doubling (bytes 2.6, searches 3.5, ...), at most 4 hash collisions per search, never more unique sets than tokens, goto-cache hits do not shrink; non-trivial = a (family, lookahead, n -> 2n) pair with both measurements',
                 assumptions=['measured, not proved: hash distribution, allocator behaviour and wall time are outside any model; thresholds calibrated on the unchanged tree with head-room',
-                             'hash collisions grow superlinearly on the unchanged tree (recorded finding); only an explosion beyond 30x per doubling alarms'],
+                             'hash collisions are judged per search (<= 4 collisions per search + 1000): their growth at small sizes is table warm-up, not superlinear work'],
                 technique='machine-independent work counters (guarded hook + allocator wrapper) at doubling input sizes (partial: runtime behaviour)'),
     'C19': dict(level='proof', theorem_modules=['C19'], min_theorems=12, tags=['C19'], crash_counts=False, kind='containers',
                 gen=lambda seed, tier: gen_containers.gen_cases(seed, 12000 if tier == 'thorough' else 1500), flavours=['c', 'cxx'],
@@ -305,14 +305,17 @@ def run_c18(pid, P, tier, seed):
                         failures.append(dict(prop=pid, kind='K', case='P-%s-%d-%d' % (fam, b, la), op='5',
                                              detail='[%s] %s grows by %.2f when the input doubles (%d -> %d tokens: %d -> %d), limit %.1f' % (flavour, metric, y / max(1, x), a, b, x, y, lim),
                                              context=[], replay_lines=res.obs.get('P-%s-%d-%d' % (fam, b, la), [])[:12]))
-                # hash collisions: superlinear on the unchanged tree (recorded finding); alarm beyond 30x
-                x, y = byn[a].get('collisions', 0), byn[b].get('collisions', 0)
-                if y > 3 * x + 200:
-                    tag = 'KF-collisions-superlinear' if y <= 30 * x + 2000 else 'collisions-explode'
-                    vcount[tag] += 1
-                    failures.append(dict(prop=pid, kind='K', case='P-%s-%d-%d' % (fam, b, la), op='5',
-                                         detail='%s [%s] hash collisions grow by %.1f when the input doubles (%d -> %d tokens: %d -> %d)' % (tag, flavour, y / max(1, x), a, b, x, y),
-                                         context=[], replay_lines=res.obs.get('P-%s-%d-%d' % (fam, b, la), [])[:12]))
+                # hash collisions: on the unchanged tree the number of collisions per search settles
+                # around 1 (max 1.6 up to 512k tokens; the steep growth at small n is warm-up of tables
+                # sized for the input), so work in collisions is linear iff collisions <= c * searches
+                for n_ in (a, b):
+                    x, y = byn[n_].get('searches', 0), byn[n_].get('collisions', 0)
+                    ok = y <= 4 * x + 1000
+                    vcount['collisions-per-search %s' % ('ok' if ok else 'bad')] += 1
+                    if not ok:
+                        failures.append(dict(prop=pid, kind='K', case='P-%s-%d-%d' % (fam, n_, la), op='5',
+                                             detail='[%s] %d hash collisions for %d searches at %d tokens (more than 4 per search)' % (flavour, y, x, n_),
+                                             context=[], replay_lines=res.obs.get('P-%s-%d-%d' % (fam, n_, la), [])[:12]))
                 # identical sets are found again rather than rebuilt: never more sets than tokens, cache hits do not shrink
                 if byn[b].get('sets', 0) > byn[b].get('toks', 0) + 2:
                     failures.append(dict(prop=pid, kind='K', case='P-%s-%d-%d' % (fam, b, la), op='5', detail='[%s] more unique sets than tokens: %s' % (flavour, byn[b]), context=[], replay_lines=[]))
